@@ -343,6 +343,20 @@ def guards(rep, prog):
         rep.inconc("number(): " + e.reason, e.where)
         rows = []
     mx = prog.consts.get("MAX_SAFE_INTEGER")
+    if any(r["status"] == "inconclusive" for r in rows):
+        # number() handles the digits itself: witness search on concrete digit strings around the bounds
+        rep.rule("GUARD-NUMBER-WITNESS", 0, "number() on concrete digit strings (small, 14-16 digits, MAX_SAFE_INTEGER and its "
+                                            "neighbours, around u64::MAX, leading zeros)")
+        try:
+            bad, ran = E.number_witness(prog)
+            for text, exp, got in bad[:3]:
+                cls_ = "rejects a valid component" if exp[0] == "ok" else ("accepts an oversized component" if got and got[0] == "ok" else "wrong error")
+                rep.fail("GUARD-NUMBER-WITNESS", "number|GUARD-NUMBER-WITNESS|%s" % cls_,
+                         "number() on %r gives %r, expected %r" % (text, got, exp), example="%s.0.0" % text)
+            rep.ok("GUARD-NUMBER-WITNESS", max(0, ran - len(bad)))
+            rep.analysed_item("number() interpreted on %d concrete digit strings, %d mismatches" % (ran, len(bad)))
+        except Inconclusive as e:
+            rep.inconc("GUARD-NUMBER-WITNESS: " + e.reason, e.where)
     for r in rows:
         cls = "parse=%s %s" % (r["parse"], "" if r["parse"] == "err" else ("v<=MAX" + ("(=)" if r["value"] == mx else "") if r["value"] <= mx else "v>MAX"))
         if r["status"] != "ok":
